@@ -97,10 +97,10 @@ def jobs(tier, seed, excluded=()):
         hb, hn = 60, 3
     else:
         dom = Dom(int_max=100000, str_mode="cand", str_cands=["", "p", "fast", "slow", "a", 'q"'])
-        out = state_jobs("C01", "vk.props.c01", "values", etrees, dom, 3000, 2, 600, rng)
-        out += state_jobs("C01", "vk.props.c01", "values", temps, dom, 2500, 6, 600, rng)
-        out += state_jobs("C01", "vk.props.c01", "values", ["R%d" % (1000 * seed + j) for j in range(24)], dom, 2500, 2, 600, rng)
-        hb, hn = 300, 8
+        out = state_jobs("C01", "vk.props.c01", "values", etrees, dom, 1500, 2, 300, rng)
+        out += state_jobs("C01", "vk.props.c01", "values", temps, dom, 1200, 6, 300, rng)
+        out += state_jobs("C01", "vk.props.c01", "values", ["R%d" % (1000 * seed + j) for j in range(24)], dom, 1200, 2, 300, rng)
+        hb, hn = 200, 8
     for tid in temps:
         slots = ST.layout(tid)
         names = [sl.name for sl in slots if sl.kind != "pick"]
@@ -108,5 +108,5 @@ def jobs(tier, seed, excluded=()):
         for name in names[:hn]:
             sl = [s for s in slots if s.name == name][0]
             nv = len(ST.slot_values(sl, dom))
-            out += state_jobs("C01", "vk.props.c01", "hidden", [tid], dom, hb, 1, 150 if tier == "quick" else 600, rng, {"target": name, "skip": list(excluded)}, tag="hidden-" + name, extra_params=[("alt", "int")], extra_pre="0 <= alt < %d" % nv, extra_samples=lambda r, nv=nv: [r.randrange(nv)], must_free=lambda a, b, name=name: [name])
+            out += state_jobs("C01", "vk.props.c01", "hidden", [tid], dom, hb, 1, 150 if tier == "quick" else 300, rng, {"target": name, "skip": list(excluded)}, tag="hidden-" + name, extra_params=[("alt", "int")], extra_pre="0 <= alt < %d" % nv, extra_samples=lambda r, nv=nv: [r.randrange(nv)], must_free=lambda a, b, name=name: [name])
     return out
